@@ -56,31 +56,28 @@ Glob(p, t) ==
 \* restricted Damerau-Levenshtein distance (insert, delete, substitute,
 \* transpose adjacent) - the distance the fuzzy queries document
 Min2(a, b) == IF a < b THEN a ELSE b
-RECURSIVE DLrec(_, _, _, _)
-DLrec(a, b, i, j) ==      \* distance between prefixes a[1..i], b[1..j]
-  IF i = 0 THEN j
-  ELSE IF j = 0 THEN i
-  ELSE LET cost == IF a[i] = b[j] THEN 0 ELSE 1
-           d1 == DLrec(a, b, i - 1, j) + 1
-           d2 == DLrec(a, b, i, j - 1) + 1
-           d3 == DLrec(a, b, i - 1, j - 1) + cost
-           m == Min2(d1, Min2(d2, d3))
-       IN IF i > 1 /\ j > 1 /\ a[i] = b[j - 1] /\ a[i - 1] = b[j]
-          THEN Min2(m, DLrec(a, b, i - 2, j - 2) + 1)
-          ELSE m
-DL(a, b) == DLrec(a, b, Len(a), Len(b))
+\* (computed row by row of the distance table: cell j of a row is kept at index j + 1)
+RECURSIVE EditRowFrom(_, _, _, _, _, _, _)
+EditRowFrom(a, b, i, r1, r2, trans, acc) ==      \* acc = cells 0 .. Len(acc) - 1 of row i; r1, r2 = rows i - 1, i - 2
+  LET j == Len(acc)
+  IN IF j > Len(b) THEN acc
+     ELSE LET cost == IF a[i] = b[j] THEN 0 ELSE 1
+              m == Min2(r1[j + 1] + 1, Min2(acc[j] + 1, r1[j] + cost))       \* delete, insert, substitute
+              v == IF trans /\ i > 1 /\ j > 1 /\ a[i] = b[j - 1] /\ a[i - 1] = b[j]
+                   THEN Min2(m, r2[j - 1] + 1)                               \* transpose adjacent
+                   ELSE m
+          IN EditRowFrom(a, b, i, r1, r2, trans, Append(acc, v))
+RECURSIVE EditRows(_, _, _, _)
+EditRows(a, b, i, trans) ==      \* <<row i, row i - 1>>
+  IF i = 0 THEN LET r0 == [j \in 1 .. Len(b) + 1 |-> j - 1] IN <<r0, r0>>
+  ELSE LET p == EditRows(a, b, i - 1, trans)
+       IN <<EditRowFrom(a, b, i, p[1], p[2], trans, <<i>>), p[1]>>
+DL(a, b) == EditRows(a, b, Len(a), TRUE)[1][Len(b) + 1]
 
 \* plain Levenshtein distance (no transposition).  NOT the documented distance;
 \* used only to recognise the recorded finding "single-segment fuzzy matching
 \* ignores transpositions" precisely (query op "fuzzylev").
-RECURSIVE LevRec(_, _, _, _)
-LevRec(a, b, i, j) ==
-  IF i = 0 THEN j
-  ELSE IF j = 0 THEN i
-  ELSE Min2(LevRec(a, b, i - 1, j) + 1,
-            Min2(LevRec(a, b, i, j - 1) + 1,
-                 LevRec(a, b, i - 1, j - 1) + (IF a[i] = b[j] THEN 0 ELSE 1)))
-Lev(a, b) == LevRec(a, b, Len(a), Len(b))
+Lev(a, b) == EditRows(a, b, Len(a), FALSE)[1][Len(b) + 1]
 
 \* ---- denotation --------------------------------------------------------------
 \* Denote(idx, q) is a function  matching docnum -> score.
